@@ -31,7 +31,10 @@ R = Registry(
         "Connection._rollback*_impl, with dynamic dispatch over the transaction classes) reaches "
         "dialect.do_rollback on every normal path except enumerated, justified bypasses (C24-R6); every "
         "connection characteristic that is set has a registered reset finaliser -- registered on every path, "
-        "bound to the whole collection being applied -- which check-in drains before returning the record."
+        "bound to the whole collection being applied -- which check-in drains before returning the record; a "
+        "finaliser that raises never reaches _return_conn() with the record live (propagates, or the record is "
+        "invalidated); reset_isolation_level restores the engine-wide configured level (AUTOCOMMIT included) when "
+        "there is one, else the detected default -- the level the on-connect hook gives a new connection (C24-R7)."
     ),
     not_decided="backend-visible transaction / isolation state; custom reset event handlers; reset_on_return=None.",
 )
@@ -252,10 +255,10 @@ def _covers(fn, expr, param, depth=0):
     return False
 
 
-@R.rule("C24-R4", floor=6, template="T-PATH",
+@R.rule("C24-R4", floor=7, template="T-PATH",
         desc="every set_connection_characteristic is paired with a registered _reset_characteristics "
              "finaliser (also when a later characteristic fails); checkin drains finalize_callback before "
-             "_return_conn; __close clears it")
+             "_return_conn, and a finaliser that raises never reaches _return_conn with the record live; __close clears it")
 def r4(ctx):
     f = _nf(ctx, f"{DEF}::DefaultDialect._set_connection_characteristics", "set_connection_characteristic",
             "_reset_characteristics", alias=None)
@@ -786,7 +789,7 @@ def r7(ctx):
     is_ac = [ISO_CONFIGURED + " == 'AUTOCOMMIT'", "'AUTOCOMMIT' == " + ISO_CONFIGURED]
     scenarios = [
         ("engine-level-autocommit", {ISO_CONFIGURED + " is None": False, ISO_CONFIGURED: True, **{a: True for a in is_ac}},
-         (ISO_CONFIGURED,), "the engine is configured with create_engine(isolation_level='AUTOCOMMIT')"),
+         (ISO_CONFIGURED, repr("AUTOCOMMIT")), "the engine is configured with create_engine(isolation_level='AUTOCOMMIT')"),
         ("engine-level-configured", {ISO_CONFIGURED + " is None": False, ISO_CONFIGURED: True, **{a: False for a in is_ac},
                                      ISO_DETECTED + " is None": False, ISO_DETECTED: True},
          (ISO_CONFIGURED, ISO_DETECTED), "an engine-wide isolation level other than AUTOCOMMIT is configured"),
